@@ -111,4 +111,26 @@ def codeSizeLookup (key : Addr → Hash → Nat) (cache : Nat → Option Nat) (d
 def keyByCodeHash : Addr → Hash → Nat := fun _ ch => ch
 def keyByAddress : Addr → Hash → Nat := fun a _ => a
 
+
+/-! ### the per-transaction sender cache (core/types/transaction_signing.go `Sender`) -/
+
+/-- `types.Sender(signer, tx)`: `tx.from` caches `sigCache{signer, from}`; the cached address is served only when
+    `same cachedSigner signer` (Go: `sigcache.signer.Equal(signer)`), otherwise the sender is recovered under `signer` (the
+    signer decides which signatures are acceptable at all: Homestead cannot recover a replay-protected transaction). -/
+def senderCached {Tx Signer : Type} (recover : Signer → Tx → Option Addr) (same : Signer → Signer → Bool)
+    (cache : Option (Signer × Addr)) (signer : Signer) (tx : Tx) : Option Addr :=
+  match cache with
+  | some (s, a) => if same s signer then some a else recover signer tx
+  | none => recover signer tx
+
+/-! ### BLOCKHASH (core/evm.go `GetHashFn`) -/
+
+/-- `GetHashFn(ref, chain)(n)`: walk the parent links from `ref.ParentHash` until the header with number `n`; fuel = distance. -/
+def blockHashWalk (hdr : Hash → Option Header) : Nat → Hash → Nat → Hash
+  | 0, _, _ => 0
+  | f + 1, h, n =>
+    match hdr h with
+    | none => 0
+    | some x => if x.number = n then h else blockHashWalk hdr f x.parentHash n
+
 end Aqv.BlockImport
